@@ -14,7 +14,7 @@ RULE = ('Hypothesis-generated coordinate-sorted in-memory fragment lists (n<=14 
         'input while a further fragment was still to come, and the input has a molecule with >=2 fragments.')
 ASSUMPTIONS = ['input sorted by fragment start; every fragment span < cache_size/4 (strict reading of "shorter than the cache radius"), or (part wide) any span < cache_size provided no fragment ends more than cache_size/2 beyond the current extent of a molecule that still has fragments to come',
                'UMIs compared exactly (hamming 0); equality classes are clean: same (cell, site/start, strand, UMI)',
-               'plain Fragment inputs: distinct molecules of one (cell,strand,UMI) differ in start and end by more than the radius (0), one contig']
+               'plain Fragment inputs: distinct molecules of one (cell,strand,UMI) differ in start and end by more than the radius (0) or lie on different contigs']
 
 CONTIGS = [('chr1', 100000), ('chr2', 100000)]
 UMIS = ['AAA', 'AAC', 'CCC', 'GTA']
@@ -27,7 +27,7 @@ def strategy(max_n, wide=False):
         cache = draw(st.sampled_from([80, 120, 200, 400, 1000]))
         # wide: spans up to the cache size itself; such inputs are kept only when in_domain() holds
         maxspan = (cache - 1) if wide else (cache // 4 - 1)
-        ncontig = 1 if kind == 'plain' else draw(st.sampled_from([1, 1, 2]))
+        ncontig = draw(st.sampled_from([1, 1, 2]))
         nmol = draw(st.integers(1, max(1, max_n // 2)))
         mols = []
         used = set()
@@ -38,17 +38,24 @@ def strategy(max_n, wide=False):
             strand = draw(st.booleans())
             cell = 'cell%d' % draw(st.integers(0, 2))
             umi = draw(st.sampled_from(UMIS))
+            ln_twin = None
+            if ncontig > 1 and mols and draw(st.integers(0, 3)) == 0:
+                # the same coordinates, cell, strand and UMI as an earlier molecule, on the other contig
+                src = mols[draw(st.integers(0, len(mols) - 1))]
+                tid, pos, strand, cell, umi, ln_twin = 1 - src['tid'], src['pos'], src['rev'], src['cell'], src['umi'], src['len']
             key = (tid, pos, strand, cell, umi)
             if key in used:
                 continue
             if kind == 'plain':
                 # clean classes: unique start and unique end per (cell,strand,umi) group -> unique start per group,
                 # all copies share one length
-                if any(k[3] == cell and k[4] == umi and k[2] == strand and abs(k[1] - pos) <= maxspan + 1 for k in used):
+                if any(k[0] == tid and k[3] == cell and k[4] == umi and k[2] == strand and abs(k[1] - pos) <= maxspan + 1 for k in used):
                     continue
             used.add(key)
             ncopies = draw(st.sampled_from([1, 1, 2, 2, 3, 4]))
             ln = draw(st.integers(8, max(8, maxspan)))
+            if ln_twin is not None:
+                ln = ln_twin
             mols.append({'tid': tid, 'pos': pos, 'rev': strand, 'cell': cell, 'umi': umi, 'copies': ncopies, 'len': ln})
         frags = []
         for mi, m in enumerate(mols):
@@ -155,8 +162,13 @@ def eval_case(case):
         truth.setdefault(f['mol'], []).append(f['name'])
     truth = sorted(tuple(sorted(v)) for v in truth.values())
     if ref != truth:
-        out.bad('never-eject-differs-from-truth:%s' % case['kind'], 'reference %r truth %r' % (ref, truth))
-        return out
+        tid_of = {f['name']: f['tid'] for f in case['frags']}
+        if any(len({tid_of[x] for x in g}) > 1 for g in ref):
+            # not a generator problem: fragments of different contigs in one molecule; the schedules below show the dependence
+            out.bad('molecule-joins-fragments-of-different-contigs:%s' % case['kind'], 'never-eject partition %r, truth %r' % (ref, truth))
+        else:
+            out.bad('never-eject-differs-from-truth:%s' % case['kind'], 'reference %r truth %r' % (ref, truth))
+            return out
     early = False
     for pooling in (0, 1):
         for every in [None] + list(range(0, n + 1)):
